@@ -523,7 +523,7 @@ class ReconRun:
                         raise _Abort()
                     muts.append(mut)
                     self.stats['mut_' + mut['m']] += 1
-                from .props_c07 import ndump
+                from .props_c07 import ndump_ml as ndump
                 edited = ndump(pure)
                 if ndump(root.a) != edited:
                     # live AST and shadow diverged only by graft formatting? structure must agree
@@ -588,7 +588,7 @@ class ReconRun:
         bad = check_consistent(out)
         if bad is not None:
             return {'kind': 'result_violates_C01_' + bad[0], 'detail': bad[1] + f' | src={out.src[:400]!r} mutations={muts!r}'[:1200]}
-        from .props_c07 import ndump
+        from .props_c07 import ndump_ml as ndump
         got = ndump(out.a)
         if got != edited:
             from .editsim import _first_diff
